@@ -86,21 +86,21 @@ PROPS = {
         "level_note": "PARTIAL: proved — decoder model total, every materialised string <= input length, pre-scan rejects over-long strings / nesting > 32 and accepts all well-formed values within the limit; not provable in Lean — that the Rust code does not panic/abort/overflow (tie only); the 'node keeps serving' clause is decided by the node engine (real nodes under garbage, duplicated, unsolicited and same-instant datagrams, in lockstep with the node model)",
     },
     "C02": {
-        "engines": [{"name": "handler", "quick": 60, "thorough": 1500, "oracle_tag": "C02"}],
+        "engines": [{"name": "handler", "quick": 160, "thorough": 1500, "oracle_tag": "C02"}],
         "constants": ["ANNOUNCE_PICK_NUM", "INITIAL_PICK_NUM", "ITERATIVE_PICK_NUM", "MAX_TOKEN_LEN"],
         "trusted": COMMON_TRUST + ["transaction ids, action ids and token secrets are symbolic in the model and canonicalised by order of first appearance on both sides (C19/C06 prove what the symbols stand for)", "tokio timers fire at their deadline rounded up to the 1 ms tick (the observed instant is an oracle input of the `fire` op)"],
         "assumptions": [],
         "level_note": "proved for all runs — every peer of every accepted answer is delivered once per occurrence; the candidate list of every stored search is sorted by XOR distance in every state (C02_candidates_sorted); the announces go to the 8 closest candidates that answered with a token, each with that node's latest token, the info-hash, the own id and the configured port (C02_announce_closest); and, since session 4, the reachability clause itself: on a network N of nodes with distinct ids and addresses whose answers arrive within D < 1.5 s and name the 8 nodes of N closest to the target (closed loop with a ghost log of the queries sent: TruthfulRun / FinishOk = E1-E4 of the property), the announce_peer datagrams of the search are exactly `closest8 target N`, each once, closest first, each with that node's own token (C02_announce_targets_reach at search level, C02_announce_targets_reach_handler for any interleaving of handler inputs; C02_reach_not_completed_early: never completed before the end-game timer, and outside the end-game the network always owes an answer). Hypotheses kept explicit: E1-E4, tokens <= 256 bytes, and that the placeholder handle (id 0…0 at 0.0.0.0:0, the filler of the pick array) is not a node of N — shown necessary by a computed counter-example; the code behaves the same way. That the end-game timer fires is C04_upper",
     },
     "C03": {
-        "engines": [{"name": "handler", "quick": 60, "thorough": 1500, "oracle_tag": "C03"}],
+        "engines": [{"name": "handler", "quick": 160, "thorough": 1500, "oracle_tag": "C03"}],
         "constants": ["ANNOUNCE_PICK_NUM", "MAX_TOKEN_LEN"],
         "trusted": COMMON_TRUST + ["transaction ids, action ids and token secrets are symbolic in the model and canonicalised by order of first appearance on both sides (C19/C06 prove what the symbols stand for)", "tokio timers fire at their deadline rounded up to the 1 ms tick (the observed instant is an oracle input of the `fire` op)"],
         "assumptions": [],
         "level_note": "yield provenance, announce discipline (<= 8, only when requested, only token holders, latest token), token provenance, routing by action prefix and run-once are proved for all event sequences at lookup/handler-model level; the model is tied to the real handler by lockstep on hostile network scenarios",
     },
     "C04": {
-        "engines": [{"name": "handler", "quick": 60, "thorough": 1500, "oracle_tag": "C04"},
+        "engines": [{"name": "handler", "quick": 160, "thorough": 1500, "oracle_tag": "C04"},
                     # "every search stream terminates" at node level: searches issued through the public API at any
                     # moment (before, during and after bootstraps and re-bootstraps) must end ([C04] oracle)
                     {"name": "node", "quick": 42, "thorough": 140, "oracle_tag": "C04"}],
@@ -110,7 +110,7 @@ PROPS = {
         "level_note": "proved — immediate close without good nodes; answers and query timeouts never end a search (only the end-game timer, scheduled 1.5 s after nothing was outstanding); every query gets a 1.5 s timeout entry; timer pops in deadline order, cancel removes exactly its entry; and, under the timer contract as an explicit hypothesis of the run (PunctualRun J: no pending entry overdue by more than J when the handler runs), the quantitative bound for every interleaving and any number of concurrent searches: a search still open at `now` satisfies now <= T0 + (1.5 s + J)(1 + k) + 1.5 s + 2J, k = nodes queried after the first round, each named in an accepted answer (C04_deadline_invariant, C04_upper, C04_silent, C04_later_rounds_query_named_nodes). PARTIAL only in that the timer contract of tokio is assumed; the [C04] oracles on silent/lossy/chain/hostile networks with failing sends measure the real closing times",
     },
     "C05": {
-        "engines": [{"name": "handler", "quick": 60, "thorough": 1500, "oracle_tag": "C05"},
+        "engines": [{"name": "handler", "quick": 160, "thorough": 1500, "oracle_tag": "C05"},
                     # what a query asks for (want, port / implied_port, token) is what the decoder makes of its
                     # bytes: the decoder half of the codec tie belongs to "each well-formed query gets a correct reply"
                     {"name": "codec", "quick": 40, "thorough": 1500, "oracle_tag": "C13", "op_filter": ["dec"]}],
@@ -120,14 +120,14 @@ PROPS = {
         "level_note": "one reply per query with echoed id and own id, reply shapes, 203/202 conditions, read-only silence, no reply to errors/responses are proved for every handler state; finding F5 (query swallowed by Socket::recv when it reuses a pending bootstrap id) is about the socket layer in front of the handler and is decided by the node engine",
     },
     "C12": {
-        "engines": [{"name": "handler", "quick": 60, "thorough": 1500, "oracle_tag": "C12"}],
+        "engines": [{"name": "handler", "quick": 160, "thorough": 1500, "oracle_tag": "C12"}],
         "constants": ["MAX_BUCKET_SIZE"],
         "trusted": COMMON_TRUST + ["transaction ids, action ids and token secrets are symbolic in the model and canonicalised by order of first appearance on both sides (C19/C06 prove what the symbols stand for)", "tokio timers fire at their deadline rounded up to the 1 ms tick (the observed instant is an oracle input of the `fire` op)"],
         "assumptions": [],
         "level_note": "a query never changes any (id,address) slot; a response whose id routes nowhere changes nothing; named nodes are offered as questionable; own id and router addresses are never live after any handler step (C08 invariant along TReach). Known finding F12: the refresh action prefix is accepted with any message id",
     },
     "C17": {
-        "engines": [{"name": "handler", "quick": 60, "thorough": 1500, "oracle_tag": "C17"},
+        "engines": [{"name": "handler", "quick": 160, "thorough": 1500, "oracle_tag": "C17"},
                     {"name": "codec", "quick": 40, "thorough": 1000, "oracle_tag": "C13", "op_filter": ["enc"]}],
         "constants": ["MAX_VALUES_V4", "MAX_VALUES_V6", "MAX_TOKEN_LEN", "RECV_BUFFER_LEN", "REPLY_NODES_PER_FAMILY", "REPLY_NODES_PER_FAMILY_V6"],
         "trusted": COMMON_TRUST + ["the size theorems are about the encoder model printVal/msgTree, which C13 proves to be the BEP encoding and the codec engine ties byte-for-byte to the real serializer",
@@ -170,7 +170,7 @@ PROPS = {
                     # the links of the chain are theorems about the storage / token / handler models: their ties
                     {"name": "storage", "quick": 30, "thorough": 400},
                     {"name": "token", "quick": 30, "thorough": 400},
-                    {"name": "handler", "quick": 60, "thorough": 1500, "oracle_tag": "C05"}],
+                    {"name": "handler", "quick": 160, "thorough": 1500, "oracle_tag": "C05"}],
         "constants": ["MAX_VALUES_V4", "MAX_VALUES_V6", "ANNOUNCE_PICK_NUM", "TOKEN_REFRESH_INTERVAL_ns", "MAX_ITEMS_STORED", "EXPIRATION_TIME_ns"],
         "trusted": NODE_TRUST,
         "assumptions": [],
